@@ -27,6 +27,7 @@ import asyncio
 import json
 import math
 import os
+import random
 import time
 
 from . import c14_overlap, c14_pool, common
@@ -184,6 +185,25 @@ def same_value(a, b):
 
 
 BAD_VALUES = {"str": "10", "list": [5], "nan": float("nan"), "inf": float("inf"), "dict": {}}
+
+
+# degenerate arguments of a call: what is passed in place of the command(s) / config(s) / file (given the scenario's
+# list of commands).  An EMPTY batch is not listed here: it is "cmds": [] (no command, empty config string, file without a line).
+DEGENERATE_VALUES = {
+    "str": lambda cmds: "\n".join(cmds) or "show version",     # one string where a list is expected (and the reverse:)
+    "list": lambda cmds: list(cmds) or ["show version"],        # a list where one string / a path is expected
+    "tuple": lambda cmds: tuple(cmds),
+    "none": lambda cmds: None,
+    "int": lambda cmds: 7,
+}
+# which of them is the WRONG type for which operation (the others would be ordinary calls)
+DEGENERATE_FOR = {
+    "send_command": ["list", "none", "int"], "send_and_read": ["list", "none", "int"], "send_interactive": ["str", "none", "int"],
+    "send_commands": ["str", "tuple", "none", "int"], "send_configs": ["str", "tuple", "none", "int"],
+    "send_config": ["list", "tuple", "none", "int"],
+    "send_commands_from_file": ["list", "none", "int", "nofile"], "send_configs_from_file": ["list", "none", "int", "nofile"],
+}
+PLURAL = ("send_commands", "send_commands_from_file", "send_config", "send_configs", "send_configs_from_file")
 
 
 def ov_value(ov):
@@ -463,47 +483,58 @@ class Conn:
                         break
         return bad
 
+    def _file_arg(self, spec, stem):
+        """the file of a *_from_file call: its lines are the commands (no line at all for an empty batch); degenerate
+        arguments: a path that does not exist, something that is not a path"""
+        arg = spec.get("arg")
+        if arg == "nofile":
+            return os.path.join(common.BUILD, "C14", "no_such_dir_%d" % os.getpid(), "nothing.txt")
+        if arg is not None:
+            return DEGENERATE_VALUES[arg](spec["cmds"])
+        path = os.path.join(common.BUILD, "C14", "%s_%d.txt" % (stem, os.getpid()))
+        os.makedirs(os.path.dirname(path), exist_ok=True)
+        with open(path, "w") as f:
+            f.write("".join(c + "\n" for c in spec["cmds"]))
+        return path
+
     def _invoke(self, spec, ctx):
         d = self.d
         op = spec["op"]
+        arg = spec.get("arg")
         kw = {}
         if "ov" in spec and spec["ov"] is not None:
             kw["timeout_ops"] = ov_value(spec["ov"])
         if self.kind == "generic" and op != "read_callback":
             kw["failed_when_contains"] = ["% Invalid input"]
         if op == "send_command":
-            return d.send_command(spec["cmd"], **kw)
+            return d.send_command(spec["cmd"] if arg is None else DEGENERATE_VALUES[arg]([spec["cmd"]]), **kw)
         if op == "send_commands":
-            return d.send_commands(list(spec["cmds"]), stop_on_failed=spec.get("stop", False), **kw)
+            cmds = list(spec["cmds"]) if arg is None else DEGENERATE_VALUES[arg](spec["cmds"])
+            return d.send_commands(cmds, stop_on_failed=spec.get("stop", False), **kw)
         if op == "send_commands_from_file":
-            path = os.path.join(common.BUILD, "C14", "cmds_%d.txt" % os.getpid())
-            os.makedirs(os.path.dirname(path), exist_ok=True)
-            with open(path, "w") as f:
-                f.write("\n".join(spec["cmds"]) + "\n")
-            return d.send_commands_from_file(path, stop_on_failed=spec.get("stop", False), **kw)
+            return d.send_commands_from_file(self._file_arg(spec, "cmds"), stop_on_failed=spec.get("stop", False), **kw)
         if op == "send_interactive":
             if spec.get("priv"):
                 kw["privilege_level"] = spec["priv"]
-            return d.send_interactive([(spec["cmd"], "^" + HOST + r"\S*[#>]\s*$")], **kw)
+            events = [(spec["cmd"], "^" + HOST + r"\S*[#>]\s*$")]
+            return d.send_interactive(events if arg is None else DEGENERATE_VALUES[arg]([spec["cmd"]]), **kw)
         if op == "send_and_read":
             if "rd" in spec:
                 rd = spec["rd"]
                 kw["read_duration"] = BAD_VALUES[rd["bad"]] if isinstance(rd, dict) else (None if rd is None else val(rd))
             if spec.get("expected"):
                 kw["expected_outputs"] = list(spec["expected"])
-            return d.send_and_read(spec["cmd"], **kw)
+            return d.send_and_read(spec["cmd"] if arg is None else DEGENERATE_VALUES[arg]([spec["cmd"]]), **kw)
         if op in ("send_config", "send_configs", "send_configs_from_file"):
             if spec.get("priv"):
                 kw["privilege_level"] = spec["priv"]
             if op == "send_config":
-                return d.send_config("\n".join(spec["cmds"]), stop_on_failed=spec.get("stop", False), **kw)
+                cfg = "\n".join(spec["cmds"]) if arg is None else DEGENERATE_VALUES[arg](spec["cmds"])
+                return d.send_config(cfg, stop_on_failed=spec.get("stop", False), **kw)
             if op == "send_configs":
-                return d.send_configs(list(spec["cmds"]), stop_on_failed=spec.get("stop", False), **kw)
-            path = os.path.join(common.BUILD, "C14", "cfgs_%d.txt" % os.getpid())
-            os.makedirs(os.path.dirname(path), exist_ok=True)
-            with open(path, "w") as f:
-                f.write("\n".join(spec["cmds"]) + "\n")
-            return d.send_configs_from_file(path, stop_on_failed=spec.get("stop", False), **kw)
+                cfgs = list(spec["cmds"]) if arg is None else DEGENERATE_VALUES[arg](spec["cmds"])
+                return d.send_configs(cfgs, stop_on_failed=spec.get("stop", False), **kw)
+            return d.send_configs_from_file(self._file_arg(spec, "cfgs"), stop_on_failed=spec.get("stop", False), **kw)
         if op == "read_callback":
             return self._read_callback(spec, ctx)
         raise ValueError(op)
@@ -582,7 +613,7 @@ class Conn:
                 raise Unmodelled("value outside the model's domain")
             return t
 
-        inner = None
+        inner, pre_exc = None, None
         if op in ("send_command", "send_commands", "send_commands_from_file", "send_config", "send_configs",
                   "send_configs_from_file"):
             o = need(ov_term(spec.get("ov")))
@@ -593,15 +624,18 @@ class Conn:
                 acq_raised = bool(ctx.get("acq")) and ctx["acq"][-1]["exc"] is not None
                 if acq_raised:
                     pass
-                elif not recs and not own_io:
-                    if self.kind == "generic":
-                        rs = ["(BPre %s)" % exc_term(ename)]
+                elif not recs and not body_io:
+                    # an argument check of the public method: no decorated call was entered (so no override was applied), no
+                    # I/O of the call's own (the privilege level may have been acquired before it, with I/O)
+                    pre_exc = exc_term(ename)
                 else:
                     raise Unmodelled("exception outside _send_command after I/O")
             if op == "send_command":
                 inner = "(OSendCommand %s %s)" % (o, rs[0] if rs else "BOk")
             else:
                 inner = "(OSendCommands %s %s %s)" % (o, common.coq_bool(spec.get("stop", False)), common.coq_list(rs))
+            if pre_exc is not None:
+                inner = "(ONet (PNoIo %s) %s)" % (pre_exc, inner)
         elif op == "send_interactive":
             o = need(ov_term(spec.get("ov")))
             if exc is None:
@@ -653,7 +687,7 @@ class Conn:
                     acq = "(%s %s)" % ("PIo" if aio else "PNoIo", exc_term(type(a["exc"]).__name__))
                 elif aio:
                     acq = "PIoOk"
-            elif exc is not None and not ctx.get("sc") and not own_io:
+            elif exc is not None and not ctx.get("sc") and not own_io and pre_exc is None:
                 acq = "(PNoIo %s)" % exc_term(ename)
             inner = "(ONet %s %s)" % (acq, inner)
         return inner
@@ -802,7 +836,18 @@ def gen_ov(rng, base_ops, malformed=False):
     return {"ms": rng.choice(OV_MS), "int": rng.random() < 0.3}
 
 
-def gen_simple_op(rng, scen, malformed=False, allow_rc=True):
+def make_degenerate(rng, spec):
+    """turn a generated call into one with a degenerate argument, its timeout override kept: an empty batch (no command,
+    empty config string, file without a line) or a value of the wrong type / a file that is not there"""
+    op = spec["op"]
+    if op in PLURAL and rng.random() < 0.5:
+        spec["cmds"] = []
+    else:
+        spec["arg"] = rng.choice(DEGENERATE_FOR[op])
+    return spec
+
+
+def gen_simple_op(rng, scen, malformed=False, allow_rc=True, degen=0.0):
     net = scen["kind"] != "generic"
     kinds = ["send_command", "send_commands", "send_commands_from_file", "send_interactive", "send_and_read", "send_and_read"]
     if net:
@@ -858,7 +903,7 @@ def gen_simple_op(rng, scen, malformed=False, allow_rc=True):
             if i < n - 1:
                 sg["next_cmd"] = "show tok%d" % (i + 1)
             if rng.random() < 0.5:
-                sg["nested"] = [gen_simple_op(rng, scen, malformed and rng.random() < 0.3, allow_rc=False)
+                sg["nested"] = [gen_simple_op(rng, scen, malformed and rng.random() < 0.3, allow_rc=False, degen=degen)
                                 for _ in range(rng.randint(1, 2))]
             r = rng.random()
             if r < 0.12:
@@ -874,6 +919,11 @@ def gen_simple_op(rng, scen, malformed=False, allow_rc=True):
             # nothing to read unless something is pending: make the first callback match the prompt residue
             stages[0]["token"] = HOST
         spec["stages"] = stages
+    if degen and op != "read_callback" and rng.random() < degen:
+        if spec.get("ov") is None or rng.random() < 0.8:
+            # what such a call must not leave behind: give it an override that differs from the configured value
+            spec["ov"] = {"ms": rng.choice([x for x in OV_MS if x != scen["base_ops"]]), "int": rng.random() < 0.3}
+        make_degenerate(rng, spec)
     return spec
 
 
@@ -890,7 +940,7 @@ def gen_faults(rng, p=0.45):
     return f
 
 
-def gen_scenario(rng, ncalls, malformed=False):
+def gen_scenario(rng, ncalls, malformed=False, degen=0.0):
     scen = {"stack": rng.choice(["sync", "async"]), "kind": rng.choice(["generic", "generic", "cisco_iosxe", "cisco_iosxe", "network"]),
             "has_set": rng.random() < 0.4, "base_ops": rng.choice(BASES), "base_tr": rng.choice(BASES),
             "base_int": rng.random() < 0.3,
@@ -899,7 +949,7 @@ def gen_scenario(rng, ncalls, malformed=False):
         scen["refuse"] = [["privilege_exec", "configure terminal"]]
     calls = []
     for _ in range(ncalls):
-        c = {"spec": gen_simple_op(rng, scen, malformed), "faults": gen_faults(rng)}
+        c = {"spec": gen_simple_op(rng, scen, malformed, degen=degen), "faults": gen_faults(rng)}
         c["heal"] = rng.choice(["reopen_drain", "reopen_drain", "reopen_drain", "drain", "none"])
         calls.append(c)
     scen["calls"] = calls
@@ -958,6 +1008,56 @@ def enumerate_single(thorough):
     return out
 
 
+def degenerate_shapes():
+    """every operation that takes a per-call timeout_ops x every degenerate argument: empty batch (no command / empty config
+    string / file without a line; with and without stop_on_failed), wrong type, file that is not there"""
+    shapes = []
+    for op in PLURAL:
+        shapes.append({"op": op, "cmds": [], "stop": False})
+        shapes.append({"op": op, "cmds": [], "stop": True})
+    for op, args in DEGENERATE_FOR.items():
+        for arg in args:
+            sp = {"op": op, "arg": arg}
+            if op in PLURAL:
+                sp.update(cmds=["show version", "show tok1"] if "command" in op else ["interface loopback0", "description x"], stop=False)
+            else:
+                sp["cmd"] = "show version"
+            shapes.append(sp)
+    return shapes
+
+
+def enumerate_degenerate(full=False):
+    """the degenerate shapes x override class x driver x stack, one call each on a fresh connection (deterministic).  None of
+    these calls reaches the device except through the privilege handling of the network drivers, so they are cheap and
+    the quick tier runs the whole product (full: also every shape on a transport with _set_timeout and followed by an
+    ordinary call without override - what the search for a failing input adds when an obligation no longer checks)."""
+    ovs_all = [None, {"ms": 30000}, {"ms": 0}, {"ms": 7500}, {"ms": 60000, "int": True}, {"bad": "str"}]
+    follow = {"spec": {"op": "send_command", "ov": None, "cmd": "show version"}, "faults": {}, "heal": "none"}
+    out = []
+    for stack in ("sync", "async"):
+        for kind in ("generic", "cisco_iosxe", "network"):
+            for n, sp in enumerate(degenerate_shapes()):
+                cfg_op = sp["op"] in ("send_config", "send_configs", "send_configs_from_file")
+                if kind == "generic" and cfg_op:
+                    continue
+                empty = not sp.get("arg")
+                if not full and kind == "network" and not empty and sp["op"] not in PLURAL:
+                    continue          # NetworkDriver = IOSXEDriver's code for the singular operations
+                for has_set in ((False, True) if full else (bool(n % 2),)):
+                    for ov in (ovs_all if full or (empty and not sp["stop"]) else [{"ms": 0}, {"ms": 7500}, {"bad": "str"}]):
+                        spec = dict(sp)
+                        spec["ov"] = ov
+                        fsets = [{}]
+                        if kind != "generic" and cfg_op and empty and ov is not None and ov.get("ms") == 7500:
+                            # the one place where such a call does I/O: entering configuration mode before the (empty) batch
+                            fsets += [{"r0": "timeout"}, {"w0": "conn"}, {"r1": "interrupt"}]
+                        for fs in fsets:
+                            calls = [{"spec": spec, "faults": fs, "heal": "reopen_drain"}]
+                            out.append({"stack": stack, "kind": kind, "has_set": has_set, "base_ops": 30000, "base_tr": 30000,
+                                        "policy": ["whole"], "calls": calls + ([follow] if full else [])})
+    return out
+
+
 def real_timer_scenarios():
     """the library's own timeout mechanisms fire (signal timer / asyncio.wait_for) on a silent device"""
     out = []
@@ -1012,6 +1112,14 @@ def count(d, k):
     d[k] = d.get(k, 0) + 1
 
 
+def degenerate_class(spec):
+    if spec.get("arg"):
+        return "missing-file" if spec["arg"] == "nofile" else "wrong-type"
+    if spec["op"] in PLURAL and not spec["cmds"]:
+        return "empty"
+    return None
+
+
 def ov_class(spec, base_ops):
     ov = spec.get("ov")
     if spec["op"] == "read_callback":
@@ -1059,19 +1167,31 @@ def run(rep):
         if f.startswith("C14-") and f.endswith(".json"):
             scens.append(("corpus:" + f, json.load(open(os.path.join(corpus_dir, f)))["scenario"]))
     single = enumerate_single(thorough)
+    single_rest = []
     if not thorough:
-        # a seeded third of the product in the quick tier (the corpus and the generators cover the rest)
-        single = [s for s in single if s.get("must") or rng.random() < 0.34]
+        # a seeded third of the product in the quick tier (the corpus and the generators cover the rest; the other two thirds
+        # are what the search for a failing input runs when an obligation no longer checks)
+        picked = [bool(s.get("must")) or rng.random() < 0.34 for s in single]
+        single_rest = [s for s, p_ in zip(single, picked) if not p_]
+        single = [s for s, p_ in zip(single, picked) if p_]
     scens += [("single", s) for s in single]
     scens += [("real-timer", s) for s in real_timer_scenarios()]
     for _ in range(900 if thorough else 150):
         scens.append(("seq", gen_scenario(rng, rng.randint(2, 6))))
     for _ in range(300 if thorough else 50):
         scens.append(("malformed", gen_scenario(rng, rng.randint(1, 4), malformed=True)))
+    # calls with a degenerate argument and a timeout override (empty batch / empty config string / file without a line, wrong
+    # type, missing file): the whole product, and histories that mix them with ordinary calls, faults, nested calls in
+    # callbacks.  Own stream (seeded from VERIF_SEED), so the streams above and the suites below stay what they were.
+    scens += [("degenerate", s) for s in enumerate_degenerate(full=thorough)]
+    drng = random.Random("C14-degenerate-%s" % rep.seed)
+    for _ in range(300 if thorough else 40):
+        scens.append(("degenerate-seq", gen_scenario(drng, drng.randint(2, 5), malformed=drng.random() < 0.15, degen=0.4)))
 
     dist = {"scenarios": {}, "calls": 0, "ops": {}, "override_class": {}, "outcomes": {}, "fault_kinds": {}, "stack": {},
             "driver": {}, "transport_with_set_timeout": 0, "nested_ops": 0, "unmodelled": {}, "modelled": 0,
-            "override_in_effect_seen": 0, "transport_timeout_swapped_seen": 0, "real_timer_fired": 0}
+            "override_in_effect_seen": 0, "transport_timeout_swapped_seen": 0, "real_timer_fired": 0,
+            "degenerate_argument": {}, "degenerate_argument_with_override": 0, "degenerate_argument_nested_in_callback": 0}
     terms, term_recs, failures = [], [], []
     for label, scen in scens:
         count(dist["scenarios"], label.split(":")[0])
@@ -1101,6 +1221,10 @@ def run(rep):
                 dist["transport_timeout_swapped_seen"] += 1
             for sg in spec.get("stages", []):
                 dist["nested_ops"] += len(sg.get("nested", []))
+                dist["degenerate_argument_nested_in_callback"] += len([n_ for n_ in sg.get("nested", []) if degenerate_class(n_)])
+            if degenerate_class(spec):
+                count(dist["degenerate_argument"], "%s:%s:%s" % (spec["op"], degenerate_class(spec), rec["outcome"]))
+                dist["degenerate_argument_with_override"] += int(ov_class(spec, scen["base_ops"]) in ("zero", "int", "fractional", "negative"))
             nontrivial = len(seen) > 1 or rec["outcome"] not in ("Ok",)
             rep.case((label, json.dumps(scen["calls"][k], sort_keys=True, default=repr), scen["stack"], scen["kind"], scen["has_set"],
                       scen["base_ops"], scen["base_tr"]), nontrivial=nontrivial)
@@ -1260,8 +1384,8 @@ def run(rep):
         small = dict(scen)
         small["calls"] = scen["calls"][:k + 1]
         rep.violation("after %s(%s) ended with %s on the %s %s driver: %s" % (
-            rec["spec"]["op"], json.dumps({x: rec["spec"][x] for x in rec["spec"] if x in ("ov", "rd", "rt")}), rec["outcome"],
-            scen["stack"], scen["kind"], "; ".join(bad)),
+            rec["spec"]["op"], json.dumps({x: rec["spec"][x] for x in rec["spec"] if x in ("ov", "rd", "rt", "arg") or (x == "cmds" and not rec["spec"][x])}),
+            rec["outcome"], scen["stack"], scen["kind"], "; ".join(bad)),
             {"suite": "timeout-restore", "scenario": small, "call_index": k, "observed": jsonable_rec(rec),
              "rerun": "./check C14 --replay <this file>"}, signature=sig)
         if len(reported) >= 8:
@@ -1286,6 +1410,13 @@ def run(rep):
                 "(ScrapliTimeout / transient or permanent ScrapliConnectionError / closed transport / RuntimeError / KeyboardInterrupt|CancelledError "
                 "at the n-th read or write of the call; refused privilege escalation; failing commands; raising callbacks); plus the product "
                 "operation x override class x fault kind x position (a seeded third of it in the quick tier) and real-timer cases on a silent device; "
+                "plus calls with a DEGENERATE ARGUMENT and a timeout override: empty batch (send_commands([]) / send_configs([]) / send_config('') / "
+                "*_from_file on a file without a line, with and without stop_on_failed), an argument of the wrong type (str / tuple / None / int "
+                "where a list is expected, list / None / int where a command, a config string or a path is expected), a file that is not there - "
+                "the whole product shape x override class x stack x GenericDriver / IOSXEDriver / NetworkDriver (faults in the privilege "
+                "handling that precedes an empty config batch) and seeded histories that mix such calls with ordinary ones, faults and "
+                "nested calls in callbacks (own seeded stream); when an obligation no longer checks and no failing input was found, the rest "
+                "of the product and the degenerate shapes on every transport kind, each followed by an ordinary call, are run as a search; "
                 "plus the thread based timeout: sync drivers reached through each of its four entries (SystemTransport / TelnetTransport class name, "
                 "windows flag, calling thread that is not the main thread) over a transport whose blocked read comes back a latency after close() or "
                 "never, timeout_ops (per call or configured) expiring inside send_and_read's / channel.send_input_and_read's timed read, before it, "
@@ -1348,6 +1479,34 @@ def run(rep):
                         break
                 if found:
                     break
+
+
+    # 6. an obligation (generated fact, proof, correspondence) no longer checks and nothing above produced a failing input:
+    # run on the real code what the quick tier left out - the rest of the product operation x override x fault, and the
+    # degenerate-argument histories on every transport kind, each followed by an ordinary call
+    if rep.broken and not rep.violations and not (failures or pool_failures or ov_failures):
+        t_end = time.time() + (240 if thorough else 75)
+        found = set()
+        for label, scen in [("degenerate", s_) for s_ in enumerate_degenerate(full=True)] + [("single", s_) for s_ in single_rest]:
+            if time.time() > t_end or len(found) >= 3:
+                break
+            try:
+                recs = run_scenario(scen)
+            except Exception:
+                continue
+            for k, rec in enumerate(recs):
+                bad = oracle(rec)
+                if bad and signature(rec) not in found:
+                    found.add(signature(rec))
+                    small = dict(scen)
+                    small["calls"] = scen["calls"][:k + 1]
+                    rep.violation("after %s(%s) ended with %s on the %s %s driver: %s" % (
+                        rec["spec"]["op"], json.dumps({x: rec["spec"][x] for x in rec["spec"] if x in ("ov", "rd", "rt", "arg")}),
+                        rec["outcome"], scen["stack"], scen["kind"], "; ".join(bad)),
+                        {"suite": "timeout-restore", "scenario": small, "call_index": k, "observed": jsonable_rec(rec),
+                         "found_by": "search after a broken obligation (%s)" % label,
+                         "rerun": "./check C14 --replay <this file>"}, signature=signature(rec))
+        dist["search_after_broken_obligation"] = {"ran": True, "failing_inputs": len(found)}
 
 
 def replay_pool(scen):
@@ -1428,6 +1587,11 @@ MANIFEST = {
             "outcome class and the sequence of timeout values seen at every transport read/write; an independent oracle compares the three values "
             "before/after on the real connection and, for the other half of the statement, checks on the observations alone that the value passed "
             "for the call (timeout_ops, int(read_duration), read_timeout) is the one in effect at the call's own reads and writes. "
+            "Degenerate arguments (C14_degenerate_calls_touch_nothing): an empty batch / empty config string / file without a line reaches no "
+            "decorated call and an argument check that raises (wrong type, missing file) ends the public method before one, so the override is "
+            "never set and the state is untouched; the histories contain every such call shape with every override class on all three driver "
+            "kinds and both stacks (same oracle: after the call, whatever its outcome, every timeout equals its configured value), and the model "
+            "term of such a call is built from the observation that no decorated _send_command was entered. "
             "Thread based timeout of the sync stack (decorators._multiprocessing_timeout: system/telnet transports, windows, non-main threads): "
             "theorem pool_call_restores - because the pool's exit joins the worker, when ScrapliTimeout reaches the caller the worker has left "
             "send_and_read's timed read through its finally, so all three values are what they were AT THE MOMENT THE CALL ENDS and no thread is left "
@@ -1468,10 +1632,15 @@ MANIFEST = {
             "every order of them). The entry of the decorated method is not observed directly: it is placed at the instrumented _send_command "
             "entry, resp. at the call's first event outside acquire_priv. Trusted for this suite also: asyncio's task scheduling / threading "
             "primitives, gen_timeouts.analyse_saved (ast); a parked call ended by its own timeout_ops uses a real 80 ms timer. "
+            "Degenerate-argument calls: that an argument check sits before every decorated call is taken from the observed run (no "
+            "_send_command entered, no I/O of the call's own), not from the source; send_interactive / send_and_read given a non-string fail "
+            "inside the decorated call (modelled as BPre / PNoIo under the override). "
             "Not modelled: values nan/inf (oracle only), "
             "a callback that sets the timeouts itself (excluded by the theorem's hypothesis on callbacks).",
     "technique": "Coq proof (case analysis over outcomes, induction over call sequences / read_callback stages, invariant session timeout = transport timeout) "
                  "+ vm_compute correspondence against both real driver stacks with fault injection at every read/write + before/after oracle "
+                 "+ exhaustive product of degenerate-argument calls (empty batch, wrong type, missing file) x override class, and a search over the "
+                 "left-out part of the products when an obligation breaks "
                  "+ real-thread scenarios on the thread based timeout (end-of-call and after-the-call observers) + ast obligation that the executor joins its worker "
                  "+ multi-connection interleaving model (invariant over schedules, projection/product lemma, vm_compute refutation of a shared slot) with "
                  "deterministic overlapping-call scenarios on asyncio tasks and threads (parking transports) + ast obligation that restored values are frame locals",
